@@ -84,6 +84,14 @@ func init() {
 		h.Write(data[pos:])
 		s16 := h.Sum16()
 		sum := h.Sum(nil)
+		// Sum appends to what it is given and leaves the state alone; Size and BlockSize are constants
+		pre := []byte{0xDE, 0xAD, 0xBE}
+		if got := h.Sum(pre[:2:3]); len(got) != 4 || got[0] != 0xDE || got[1] != 0xAD || got[2] != sum[0] || got[3] != sum[1] || h.Sum16() != s16 || h.Size() != 2 || h.BlockSize() != 1 {
+			return fmt.Sprintf("sum-append-broken %x", got)
+		}
+		if n, err := h.Write(nil); n != 0 || err != nil || h.Sum16() != s16 {
+			return "empty-write-broken"
+		}
 		h.Reset()
 		return fmt.Sprintf("%d %s %d %d", s16, hex.EncodeToString(sum), h.Sum16(), dyncrc16.Checksum(data))
 	}
